@@ -53,6 +53,8 @@ Proof.
   intros E R. split; [exists []; rewrite app_nil_r; split; [exact E|intros r []]|]. intros t Ht. left. rewrite <- R. exact Ht.
 Qed.
 
+Lemma startup_run_gen u r : In r (startup_run u) -> r_gen r = u_gen u.
+Proof. unfold startup_run. destruct (u_startup u && negb (u_crash u)); [intros [<-|[]]; reflexivity|intros []]. Qed.
 Lemma shutdown_run_gen u r : In r (shutdown_run u) -> r_gen r = u_gen u.
 Proof. unfold shutdown_run. destruct (u_shutdown u); [intros [<-|[]]; reflexivity|intros []]. Qed.
 
@@ -85,8 +87,8 @@ Qed.
 Lemma dec_unit_stop_eff cfg W f u : In u (f_units f) -> eff W (dec_unit_stop cfg W u) [f].
 Proof.
   intros Hu. unfold dec_unit_stop. split.
-  - exists (shutdown_run u). split; [reflexivity|]. intros r Hr. exists f, u. split; [left; reflexivity|split; [exact Hu|]].
-    apply shutdown_run_gen. exact Hr.
+  - exists (snd (dec_stop cfg u (w_led W))). split; [reflexivity|]. intros r Hr. exists f, u. split; [left; reflexivity|split; [exact Hu|]].
+    unfold dec_stop in Hr. cbn [snd] in Hr. destruct (u_crash u); [destruct Hr|]. apply shutdown_run_gen. exact Hr.
   - intros t Ht. wsimpl. destruct (dec_stop_proj cfg u (w_led W)) as [_ [_ [_ [_ [R _]]]]]. rewrite R in Ht. left; exact Ht.
 Qed.
 
@@ -94,7 +96,7 @@ Lemma dec_unit_start_eff W f u : In u (f_units f) -> eff W (dec_unit_start W u) 
 Proof.
   intros Hu. unfold dec_unit_start. split.
   - exists (snd (dec_start u (w_led W))). split; [reflexivity|]. intros r Hr. exists f, u. split; [left; reflexivity|split; [exact Hu|]].
-    unfold dec_start in Hr. cbn [snd] in Hr. destruct (u_startup u); [destruct Hr as [<-|[]]; reflexivity|destruct Hr].
+    unfold dec_start in Hr. cbn [snd] in Hr. apply startup_run_gen. exact Hr.
   - intros t Ht. wsimpl. destruct (dec_start_proj u (w_led W)) as [_ [_ [_ [_ [R _]]]]]. rewrite R in Ht. left; exact Ht.
 Qed.
 
@@ -325,7 +327,7 @@ Proof.
   exists [f]. split; [|intros f' [<-|[]]; split; [apply O|exact A]].
   split.
   - exists (snd (leg_prologue u (w_led W))). split; [reflexivity|]. intros r Hr. exists f, u. split; [left; reflexivity|split; [apply O|]].
-    unfold leg_prologue in Hr. cbn [snd] in Hr. destruct (u_startup u); [destruct Hr as [<-|[]]; reflexivity|destruct Hr].
+    unfold leg_prologue in Hr. cbn [snd] in Hr. apply startup_run_gen. exact Hr.
   - intros t Ht. wsimpl. destruct (leg_prologue_proj u (w_led W)) as [_ [_ [_ [_ [R _]]]]]. rewrite R in Ht. left; exact Ht.
 Qed.
 
@@ -409,7 +411,7 @@ Lemma define_tables cfg c n s W :
 Proof.
   unfold define.
   set (gen := w_next W).
-  set (units := number_units gen (gen + 1) (if n then new_protos s else legacy_protos s)).
+  set (units := number_units (s_crash s) gen (gen + 1) (if n then new_protos s else legacy_protos s)).
   set (f := {| f_gen := gen; f_ctx := c; f_new := n; f_units := units; f_svc := s_svc s; f_pos := s_pos s |}).
   set (Wf := {| w_led := w_led W; w_funcs := w_funcs W ++ [f]; w_active := w_active W; w_delayed := w_delayed W;
                 w_pending := w_pending W; w_zombie := w_zombie W; w_running := w_running W; w_starting := w_starting W;
@@ -479,6 +481,10 @@ Proof.
   - apply FromA; try reflexivity; [auto|]. exists []. split; [apply do_reap_eff|intros f []].
   - destruct (settle_inv W HI) as [_ [[T1 T2] [A _]]]. apply FromA; try assumption; [intros x Hx; rewrite <- A; exact Hx|].
     apply settle_eff; [exact HI|apply below_refl].
+  - destruct (crash_all_inv cfg (crashers_startup W) AO W HI) as [_ [F [Nx [A [_ [_ [_ [_ [_ [LG [RP _]]]]]]]]]]].
+    apply FromA; try assumption; [intros x Hx; rewrite <- A; exact Hx|]. exists []. split; [apply eff_same; assumption|intros f []].
+  - pose proof AO as [_ [_ [_ [_ D92]]]]. rewrite D92.
+    destruct (ctx_start_inv cfg m ord W AO HI) as [_ [[T1 T2] S]]. apply FromA; try assumption. apply ctx_start_eff; assumption.
 Qed.
 
 (* ---- occurrences run only functions that are active --------------------------------------------- *)
@@ -492,7 +498,8 @@ Proof.
 Qed.
 
 Lemma occ_active cfg W o : all_off cfg -> Inv W -> is_occ o = true ->
-  exists rs, w_log (step cfg W o) = w_log W ++ rs /\ w_led (step cfg W o) = w_led W /\ w_funcs (step cfg W o) = w_funcs W /\
+  exists rs, w_log (step cfg W o) = w_log W ++ rs /\ l_reap (w_led (step cfg W o)) = l_reap (w_led W) /\
+    w_funcs (step cfg W o) = w_funcs W /\
     w_active (step cfg W o) = w_active W /\ w_next (step cfg W o) = w_next W /\
     forall r, In r rs -> In (r_gen r) (w_active W) \/
       exists f u, owns W f u /\ f_gen f = r_gen r /\ In (u_id u) (l_reap (w_led W)).
@@ -500,31 +507,42 @@ Proof.
   intros AO HI OC. pose proof HI as [I [S L]].
   assert (RUN : forall id, In id (w_running W) -> In (gen_of W id) (w_active W)).
   { intros id H. destruct (so_run W S id H) as [f [u [O [E [A _]]]]]. rewrite <- E, (gen_of_owns W f u HI O). exact A. }
-  destruct o; cbn [is_occ] in OC; try discriminate; cbn [step]; unfold add_log.
-  - exists (occ_state e W). repeat split; try reflexivity. intros r Hr. left. unfold occ_state in Hr. apply in_map_iff in Hr.
+  assert (CR : forall ids rs, exists rs', rs' = rs /\
+            w_log (crash_all cfg ids (add_log W rs)) = w_log W ++ rs' /\
+            l_reap (w_led (crash_all cfg ids (add_log W rs))) = l_reap (w_led W) /\
+            w_funcs (crash_all cfg ids (add_log W rs)) = w_funcs W /\ w_active (crash_all cfg ids (add_log W rs)) = w_active W /\
+            w_next (crash_all cfg ids (add_log W rs)) = w_next W).
+  { intros ids rs. exists rs. split; [reflexivity|].
+    destruct (crash_all_inv cfg ids AO (add_log W rs) (Inv_log W rs HI)) as [_ [F [Nx [A [_ [_ [_ [_ [_ [LG [RP _]]]]]]]]]]].
+    rewrite LG, RP, F, A, Nx. repeat split; reflexivity. }
+  destruct o; cbn [is_occ] in OC; try discriminate; cbn [step].
+  - destruct (CR (crashers_state e W) (occ_state e W)) as [rs [-> [E1 [E2 [E3 [E4 E5]]]]]].
+    exists (occ_state e W). repeat split; try assumption. intros r Hr. left. unfold occ_state in Hr. apply in_map_iff in Hr.
     destruct Hr as [[e' q] [<- Hp]]. apply filter_In in Hp. destruct Hp as [Hp _]. cbn [r_gen snd].
     apply RUN. exact (proj1 (ok_state W L e' q Hp)).
-  - exists (occ_event ev W). repeat split; try reflexivity. intros r Hr. left. unfold occ_event in Hr. apply in_app_or in Hr.
+  - destruct (CR (crashers_event ev W) (occ_event ev W)) as [rs [-> [E1 [E2 [E3 [E4 E5]]]]]].
+    exists (occ_event ev W). repeat split; try assumption. intros r Hr. left. unfold occ_event in Hr. apply in_app_or in Hr.
     destruct Hr as [Hr|Hr].
     + destruct (memp (ev, 0) (l_bus (w_led W))); [|destruct Hr]. apply in_map_iff in Hr.
       destruct Hr as [[e' q] [<- Hp]]. apply filter_In in Hp. destruct Hp as [Hp _]. cbn [r_gen snd].
       apply RUN. exact (proj1 (ok_event W L e' q Hp)).
     + apply in_map_iff in Hr. destruct Hr as [[e' q] [<- Hp]]. apply filter_In in Hp. destruct Hp as [Hp C]. cbn [r_gen snd].
-      apply andb_true_iff in C. destruct C as [_ C]. apply negb_true_iff, N.eqb_neq in C. cbn in C.
+      apply andb_true_iff in C. destruct C as [C _]. apply andb_true_iff in C. destruct C as [_ C]. apply negb_true_iff, N.eqb_neq in C. cbn in C.
       destruct (ok_bus W L e' q Hp) as [[Z _]|[R _]]; [contradiction|]. apply RUN. exact R.
-  - exists (occ_tick W). repeat split; try reflexivity. intros r Hr. unfold occ_tick in Hr. apply in_flat_map in Hr.
+  - destruct (CR (crashers_tick W) (occ_tick W)) as [rs [-> [E1 [E2 [E3 [E4 E5]]]]]].
+    exists (occ_tick W). repeat split; try assumption. intros r Hr. unfold occ_tick in Hr. apply in_flat_map in Hr.
     destruct Hr as [t [Ht Hr]]. destruct (find_unit W t) as [u|] eqn:FU; [|destruct Hr].
-    destruct (u_periodic u && negb (memn t (w_pending W)) && negb (memn t (w_zombie W))) eqn:C; [|destruct Hr].
-    destruct Hr as [<-|[]]. cbn [r_gen]. apply andb_true_iff in C. destruct C as [C _]. apply andb_true_iff in C. destruct C as [_ C].
-    apply negb_true_iff, memn_false in C.
-    destruct (find_unit_some W t u FU) as [[f O] E]. 
+    destruct (u_periodic u && negb (memn t (w_pending W)) && negb (memn t (w_zombie W)) && negb (u_crash u)) eqn:C; [|destruct Hr].
+    destruct Hr as [<-|[]]. cbn [r_gen]. apply andb_true_iff in C. destruct C as [C _]. apply andb_true_iff in C. destruct C as [C _].
+    apply andb_true_iff in C. destruct C as [_ C]. apply negb_true_iff, memn_false in C.
+    destruct (find_unit_some W t u FU) as [[f O] E].
     destruct (ok_tasks W L t Ht) as [H|[H|H]]; [|contradiction|].
     + right. exists f, u. split; [exact O|split; [symmetry; apply (io_unit W I f u O)|rewrite E; exact H]].
     + left. rewrite (proj1 (io_unit W I f u O)).
       destruct (so_run W S t H) as [f' [u' [O' [E' [A _]]]]]. destruct (io_uniq W I f' u' f u O' O) as [-> _]; [congruence|].
       exact A.
   - exists (occ_call cfg n W). repeat split; try reflexivity. intros r Hr. left. unfold occ_call, handler in Hr.
-    destruct AO as [_ [_ [_ D21]]]. rewrite D21 in Hr.
+    destruct AO as [_ [_ [_ [D21 _]]]]. rewrite D21 in Hr.
     destruct (rev (filter (has_name W n) (l_svc (w_led W)))) as [|g r0] eqn:RV; [destruct Hr|]. destruct Hr as [<-|[]]. cbn [r_gen].
     assert (Hg : In g (l_svc (w_led W))).
     { assert (X : In g (rev (filter (has_name W n) (l_svc (w_led W))))) by (rewrite RV; left; reflexivity).
@@ -610,17 +628,21 @@ Proof. intros AO ops0 ops g W HD. apply no_run_after_stop; [exact AO|apply reach
 (* ============================================================================================== *)
 (* the deviations of today's code, on witnesses                                                    *)
 (* ============================================================================================== *)
-Definition cfg_only16 := {| d16_notify_del_return := true; d90_dropped_dm_started := false; d91_pending_subscribes := false; d21_handler_stays := false |}.
-Definition cfg_only90 := {| d16_notify_del_return := false; d90_dropped_dm_started := true; d91_pending_subscribes := false; d21_handler_stays := false |}.
-Definition cfg_only91 := {| d16_notify_del_return := false; d90_dropped_dm_started := false; d91_pending_subscribes := true; d21_handler_stays := false |}.
-Definition cfg_only21 := {| d16_notify_del_return := false; d90_dropped_dm_started := false; d91_pending_subscribes := false; d21_handler_stays := true |}.
+Definition cfg_only16 := {| d16_notify_del_return := true; d90_dropped_dm_started := false; d91_pending_subscribes := false; d21_handler_stays := false;
+  d92_cell_import_not_started := false |}.
+Definition cfg_only90 := {| d16_notify_del_return := false; d90_dropped_dm_started := true; d91_pending_subscribes := false; d21_handler_stays := false;
+  d92_cell_import_not_started := false |}.
+Definition cfg_only91 := {| d16_notify_del_return := false; d90_dropped_dm_started := false; d91_pending_subscribes := true; d21_handler_stays := false;
+  d92_cell_import_not_started := false |}.
+Definition cfg_only21 := {| d16_notify_del_return := false; d90_dropped_dm_started := false; d91_pending_subscribes := false; d21_handler_stays := true;
+  d92_cell_import_not_started := false |}.
 
 (* the three names {a.b, a.b.old, c.d}: entity 1 with two names, entity 2 with one *)
 Definition w_ab := {| i_ent := 1; i_parts := 2; i_tag := 0 |}.
 Definition w_ab_old := {| i_ent := 1; i_parts := 3; i_tag := 1 |}.
 Definition w_cd := {| i_ent := 2; i_parts := 2; i_tag := 0 |}.
 Definition w_unit (order : list ident) : unit_ :=
-  {| u_id := 5; u_gen := 4; u_state := Some order; u_event := None; u_periodic := false; u_startup := false; u_shutdown := false |}.
+  {| u_id := 5; u_gen := 4; u_state := Some order; u_event := None; u_periodic := false; u_startup := false; u_shutdown := false; u_crash := false |}.
 
 Lemma wit_fresh : id_fresh 5 ledger0 /\ ledger_wf ledger0.
 Proof.
@@ -641,7 +663,7 @@ Proof. split; vm_compute; reflexivity. Qed.
 
 Definition wit_spec_svc (order : list ident) (svc : option N) (pos : nat) : fspec :=
   {| s_states := [order]; s_events := [1]; s_times := [{| ts_periodic := false; ts_startup := true; ts_shutdown := true |}];
-     s_svc := svc; s_pos := pos |}.
+     s_svc := svc; s_pos := pos; s_crash := false |}.
 Definition wit_spec (order : list ident) : fspec := wit_spec_svc order (Some 7) 3.
 
 (* D16 at system level: define in one cell, delete in the next, unload: entity 2 keeps a dead queue *)
@@ -666,7 +688,7 @@ Lemma refuted_D91 :
 Proof. split; vm_compute; [discriminate|reflexivity]. Qed.
 
 (* D21: two live functions of one context declare service 7; the newer one is dropped: a call still reaches it *)
-Definition svc_only (n : N) : fspec := {| s_states := []; s_events := []; s_times := []; s_svc := Some n; s_pos := 0 |}.
+Definition svc_only (n : N) : fspec := {| s_states := []; s_events := []; s_times := []; s_svc := Some n; s_pos := 0; s_crash := false |}.
 Definition ops_D21 : list op := [OCtxAuto 0 true; ODefine 0 false (svc_only 7); ODefine 0 false (svc_only 7); ODropped 2; OSettle; OCall 7].
 Lemma refuted_D21 :
   map r_gen (w_log (run_ops cfg_only21 ops_D21 world0)) = [2] /\ map r_gen (w_log (run_ops cfg_off ops_D21 world0)) = [1].
@@ -694,6 +716,29 @@ Example ex_overtake :
                   (ledger_eqb_empty (w_led W), map (fun r => rkind_code (r_kind r)) (w_log W))) [0%nat; 1%nat; 2%nat; 3%nat] =
   [(true, []); (true, []); (true, [1]); (true, [3; 1; 4])].
 Proof. vm_compute. reflexivity. Qed.
+
+(* D92: a module (context 11) imported inside a Jupyter cell (context 0): loaded with auto_start off, never started *)
+Definition cfg_only92 := {| d16_notify_del_return := false; d90_dropped_dm_started := false; d91_pending_subscribes := false;
+  d21_handler_stays := false; d92_cell_import_not_started := true |}.
+Definition ops_D92 (newsys : bool) : list op :=
+  [OCtxAuto 0 false; OCtxAuto 11 false; ODefine 11 newsys (wit_spec [w_ab]); OCtxStart 0 []; OCellImportStart 11 []; OResumeAll; OSettle;
+   OState 1; OEvent 1].
+Lemma refuted_D92 : forall newsys,
+  map r_gen (w_log (run_ops cfg_only92 (ops_D92 newsys) world0)) = [] /\
+  map r_gen (w_log (run_ops cfg_off (ops_D92 newsys) world0)) = [1; 1; 1].
+Proof. intros [|]; split; vm_compute; reflexivity. Qed.
+
+(* a function whose every dispatch raises: its watchers die at the first occurrence, it never runs through a trigger,
+   and stopping its context still leaves the empty ledger (seeded change C09-9), in both subsystems *)
+Definition crash_spec : fspec :=
+  {| s_states := [[w_ab; w_cd]]; s_events := [1]; s_times := [{| ts_periodic := true; ts_startup := false; ts_shutdown := true |}];
+     s_svc := Some 7; s_pos := 3; s_crash := true |}.
+Definition ops_crash (newsys : bool) : list op :=
+  [ODefine 1 newsys crash_spec; OCtxStart 1 []; OResumeAll; OSettle; OStartupCrash; OState 1; OEvent 1; OTick; OCall 7;
+   OCtxStop 1; OResumeAll; OSettle; OState 2].
+Example ex_crash : forall newsys, let W := run_ops cfg_off (ops_crash newsys) world0 in
+  w_led W = ledger0 /\ map (fun r => rkind_code (r_kind r)) (w_log W) = (if newsys then [5] else [5; 4]).
+Proof. intros [|]; vm_compute; split; reflexivity. Qed.
 
 (* ============================================================================================== *)
 (* examples: the hypotheses of the theorems are inhabited by non-trivial instances                 *)
